@@ -4,6 +4,7 @@ import ast
 from ..model import AnalysisError
 from ..guards import norm, call_name, const_str, kwarg
 from ..transducer import extract, EVENTS, SCALAR_TAGS, state_names
+from .. import guards as G
 from . import shared as S
 from . import dumpside as D
 from .shared import fn
@@ -164,7 +165,7 @@ def run(ctx):
     if not writes:
         r.fail(f.key('no-write'), f.loc(), '_do_endline writes nothing: indent has no effect')
     for w in writes:
-        r.check(f.has_guard(w, 'self._requested_indent is not None', True, expand=False), '_do_endline: %s only under '
+        r.check(('self._requested_indent is None', False) in {G.canon_atom(g_, p_) for g_, p_ in f.guards(w)}, '_do_endline: %s only under '
                 '_requested_indent is not None' % norm(w)[:40], f.key('write-guard'), f.loc(w),
                 '_do_endline writes %s although no indent was requested: the default output is not compact' % norm(w)[:40])
     g = fn(P, 'yatiml.dumper:Dumper.__init__')
